@@ -56,6 +56,7 @@ def sampler_seeds(ctx: Context) -> dict[tuple[str, str], set[str]]:
 def run(ctx: Context) -> None:
     ctx.rule(r1_no_mutation)
     ctx.rule(r2_surrogate)
+    ctx.rule(r2b_xgboost_labels)
     ctx.rule(r3_best_batch)
     # what the calibrator receives is what sample_batch proposed: the wrapper BaseSampler.sample only ever replaces repeated rows by further rows drawn
     # by the same sample_batch (shared with C12) - anything else slipped into the batch is neither a pool candidate nor a displaced best point
@@ -173,6 +174,60 @@ def r2_surrogate(ctx: Context) -> None:
         okp = any(k.args and _derives_from(pred, k.args[0], "X") for k in est_pred)
         ctx.check(okp, "R2.estimator-predict", f"{c.name}.predict:estimator", f"{c.name}.predict evaluates the estimator on its X argument",
                   f"{c.name}.predict does not evaluate the estimator on its X argument", pred, pred.node)
+
+
+def r2b_xgboost_labels(ctx: Context) -> None:
+    """XGBoost works in float32: the labels its regressor is trained on are the given losses *after* the sampler's own float32 clipping (`_clip_losses`), on every
+    history including float32-overflowing losses.  Decided on the definition that reaches the second argument of the regressor's fit(): a `_clip_losses(..y..)` call
+    holds, the untouched parameter `y` (or a plain copy of it) fails, anything else is not read."""
+    prog = ctx.prog
+    fit = ctx.func("black_it.samplers.xgboost:XGBoostSampler.fit")
+    ctx.analysed(fit)
+    est = [k for k in calls_in(fit.node) if isinstance(k.func, ast.Attribute) and k.func.attr == "fit" and not (isinstance(k.func.value, ast.Name) and k.func.value.id == "super")]
+    ctx.floor("R2b", "estimator fit call in XGBoostSampler.fit", len(est), 1)
+    body = [s for s in walk_scope(fit.node) if isinstance(s, ast.stmt)]
+    if any(isinstance(s, (ast.If, ast.For, ast.While, ast.Try, ast.Match)) for s in body):
+        raise AnalysisError(f"{fit.loc(fit.node)}: XGBoostSampler.fit is no longer straight-line code; the definition reaching the labels cannot be read off by position")
+
+    def reaching(name: str, before: int) -> ast.expr | None:
+        last = None
+        for s in body:
+            if getattr(s, "lineno", 0) >= before:
+                continue
+            if isinstance(s, ast.Assign) and any(isinstance(t, ast.Name) and t.id == name for t in s.targets):
+                if last is None or s.lineno > last.lineno:
+                    last = s
+            elif isinstance(s, (ast.AugAssign, ast.AnnAssign)) and isinstance(s.target, ast.Name) and s.target.id == name:
+                if isinstance(s, ast.AugAssign) or s.value is None:
+                    raise AnalysisError(f"{fit.loc(s)}: `{src(s)[:60]}` on the way to the labels")
+                if last is None or s.lineno > last.lineno:
+                    last = s
+        return last.value if last is not None else None
+
+    def verdict(e: ast.expr, at: int, depth: int = 0) -> bool:
+        if depth > 6:
+            raise AnalysisError(f"{fit.loc(fit.node)}: label definition chain too long")
+        if isinstance(e, ast.Call) and (dotted(e.func) or "").split(".")[-1] == "_clip_losses":
+            a = e.args[0] if e.args else next((k.value for k in e.keywords), None)
+            if a is not None and _derives_from(fit, a, "y"):
+                return True
+            raise AnalysisError(f"{fit.loc(e)}: cannot read what `{src(e)[:60]}` clips")
+        if isinstance(e, ast.Call) and (dotted(e.func) or "").split(".")[-1] in ("copy", "asarray", "array", "ascontiguousarray", "cast") and e.args:
+            return verdict(e.args[-1] if (dotted(e.func) or "").split(".")[-1] == "cast" else e.args[0], at, depth + 1)
+        if isinstance(e, ast.Name):
+            d = reaching(e.id, at)
+            if d is None:
+                if e.id == "y":
+                    return False
+                raise AnalysisError(f"{fit.loc(e)}: `{e.id}` reaches the regressor's labels but has no definition in fit")
+            return verdict(d, getattr(d, "lineno", at), depth + 1)
+        raise AnalysisError(f"{fit.loc(e)}: cannot read the labels `{src(e)[:60]}` given to the XGBoost regressor")
+    for k in est:
+        lab = k.args[1] if len(k.args) > 1 else next((kw.value for kw in k.keywords if kw.arg == "y"), None)
+        if lab is None:
+            raise AnalysisError(f"{fit.loc(k)}: no label argument in `{src(k)[:60]}`")
+        ctx.check(verdict(lab, k.lineno), "R2b.xgboost-labels", "XGBoostSampler.fit:labels", "the regressor's labels are the losses after the float32 clipping",
+                  f"`{src(k)[:70]}` trains the float32 regressor on the unclipped losses: a float32-overflowing loss in the history reaches XGBoost as it is", fit, k)
 
 
 def _derives_from(f: FuncInfo, e: ast.expr, param: str, depth: int = 0) -> bool:
